@@ -149,6 +149,23 @@ CLAIMS = {
             'resume(), pause, play} at every boundary.',
             'DESIGN.md section 4 C06', COMMON_NOTE + 'PARTIAL: "never WAITING for ever under every interleaving" is checked for <= 3 events per schedule on implementation + model, not proved for all schedules; the awaited-futures half is C10 (no pause there) plus the implementation oracle.',
             'Coq proof: equations + symbolic execution of the wake-up path on quiet worlds + vm_compute correspondence'),
+
+    'C02': ('Machine-checked proof (Coq) over M1 by symbolic execution of the model on EVERY quiet world (any program, arguments, results, messages): the iteration of '
+            'the stepping loop that terminates the process — successful or unsuccessful result, exception, Kill command — and a kill request between steps leave the '
+            'state, the future (outputs / the exception / KilledError with the kill text), the closed flag, the cleanups (run exactly once) and the listener '
+            'notifications (exactly one, of the matching kind) in agreement; the stepping loop returns on a terminated process; the outcome never changes '
+            'afterwards in any run (C01). Tied to the code by ~2.9k real runs per quick run in which all eight accessors, the listener and cleanup counters and '
+            'the stepping task are sampled after every event and callback (kill while paused, inside a step, from a listener, fail, raising late callbacks).',
+            'DESIGN.md section 4 C02', COMMON_NOTE + 'PARTIAL: the agreement is proved per terminating operation from quiet worlds, not as an invariant over all schedules; "the future is never resolved while live" is checked at every sample point by the oracle and the correspondence only.',
+            'Coq proof: symbolic execution (wp calculus + computation) of every terminating operation + C01 finality + vm_compute correspondence'),
+    'C03': ('Machine-checked proof (Coq) over M1 with one injected fault, by symbolic execution on EVERY world in which the fault is armed (whatever the occurrence '
+            'count): for the step function and for each life-cycle hook of the transitions RUNNING->RUNNING, ->WAITING, ->FINISHED (incl. on_finished, on_terminated, '
+            'on_close) and of a kill between steps, the enclosing operation returns normally, the process is EXCEPTED with exactly that exception, its future raises '
+            'it, it is closed and stepping has ended; a raising call_soon callback fails the process the same way and nothing reaches the loop; an exception raised '
+            'by a listener never leaves fire_event (for arbitrary re-entrant listeners); a fault during construction propagates to the caller. Tied to the code by a '
+            'complete fault enumeration: every hook x every occurrence x 6 scenarios, failing steps (also with a cancelled future), callbacks, listeners.',
+            'DESIGN.md section 4 C03', COMMON_NOTE + 'PARTIAL: faults are raised before the hook calls its super() implementation; pause/play hook faults are checked by the oracle only; per operation from quiet worlds, not over all schedules.',
+            'Coq proof: symbolic execution (wp calculus + computation) of the model with an armed fault, hook by hook + vm_compute correspondence'),
 }
 
 NOT_YET = 'check under construction in this build session (model/theorems not committed yet); see DESIGN.md section 4'
